@@ -108,6 +108,19 @@ theorem cid_collision_loses_an_order :
     (XState.init collidingCfg).opens = [⟨⟨1, 1, 5, .sell, .limit, 9, 2, 0⟩, 8, 44, 0⟩] := by
   decide +kernel
 
+/-- The exchange numbers its own orders from 0 whatever ids the configured orders carry: with a
+configured open order whose id is 0, the first accepted order gets id 0 as well (ids are fresh among
+the exchange's own orders only — C08 `ids_fresh`). -/
+def idCfg : XCfg :=
+  { base := { latency := 0, fee := 0, init := [(10, 10), (100, 100)], instruments := [⟨0, 1⟩] }, cap := 4,
+    groups := [(0, [⟨⟨0, 0, 1, .buy, .limit, 9, 1, 0⟩, .open 0 5 0⟩])] }
+
+theorem fresh_id_collides_with_configured_id :
+    ∃ f, ((XState.init idCfg).step 0 (.openOrder ⟨0, 0, 2, .buy, 10, 1, .market⟩)).2.1 = .order (.accepted f) ∧
+      ∃ o ∈ (XState.init idCfg).opens, o.id = f.id := by
+  refine ⟨⟨0, 0, 1, 1, ⟨90, 90, 0⟩, ⟨0, 0, 0, 0, 0, .buy, 10, 1, 0⟩⟩, by decide +kernel, ?_⟩
+  exact ⟨⟨⟨0, 0, 1, .buy, .limit, 9, 1, 0⟩, 0, 5, 0⟩, by decide +kernel, rfl⟩
+
 /-- `account_snapshot().instruments`: instruments strictly ascending (each listed once); a group
 holds exactly the orders of its instrument, in the order they have in `open ++ cancelled` (the model's
 sort is stable; the code's is not and the harness sorts each group); no group is empty; every order
